@@ -160,6 +160,25 @@ def build_cases(ctx):
             crash.append({"kind": "crash", "fmt": fmt, "mode": "w", "pre": [],
                           "ops": [W([10, 11], True, t), ["flush"], W([12, 13], True, t), ["flush"], ["flush"],
                                   W([14], True, t), ["crash", "exit"]]})
+    # long runs: total frame counts that cross 8, 16, 32 (header refresh intervals, library chunk sizes, stdio buffer
+    # sizes), written one frame per call and several frames per call, every write followed by flush() where the
+    # format buffers, killed after the last write
+    counts = [9, 11, 17, 23, 33] if quick else list(range(1, 41))
+    for fmt, through in CRASH_FORMATS.items():
+        for N in counts:
+            for chunk in ((1, 4) if quick else (1, 3, 5)):
+                if chunk > 1 and N <= chunk:
+                    continue
+                ops, k = [], 10
+                while k < 10 + N:
+                    m = min(chunk, 10 + N - k)
+                    ops.append(W(range(k, k + m), True, fmt != "dcd"))
+                    k += m
+                    if not through:
+                        ops.append(["flush"])
+                how = "kill" if (quick or N % 2) else "exit"
+                crash.append({"kind": "crash", "fmt": fmt, "mode": "w", "pre": [], "ops": ops + [["crash", how]],
+                              "long": True})
     # HDF5 append mode: an EXISTING file is opened with 'a'; its old frames and every appended+flushed frame
     # must survive a kill (per-mode behaviour of flush()/write())
     for pre in ([[1, 2]] if quick else [[1, 2], [1], []]):
@@ -442,6 +461,32 @@ def run_cases(ctx, cases):
                      tags=dict(tags, what="crash_lost"))
         ccases.append(("(%s, %s, %s)" % (cbool(CRASH_FORMATS[fmt]), clist(dops), clist([cnat(x) for x in got])), "true"))
         cidx.append(i)
+    hcases, hidx = [], []
+    for i, (c, o) in enumerate(crash):
+        if c["fmt"] != "dcd" or "load_err" in o["load"]:
+            continue
+        dops = []
+        for op in c["ops"]:
+            if op[0] == "write":
+                dops.append("DWrite %s" % clist([cnat(x) for x in op[1]]))
+            elif op[0] == "close":
+                dops.append("DClose")
+        if not any(d.startswith("DWrite") for d in dops):
+            continue
+        # the writer as found: header refreshed after every frame (1), reader recomputes the count (false)
+        hcases.append(("(%s, false, %s, %s)" % (cnat(1), clist(dops), clist([cnat(x) for x in o["load"]["frames"]])), "true"))
+        hidx.append(i)
+    if hcases:
+        badh, errh = ctx.coq_mismatches(["MD.Writer.Model"], ("nat * bool * list dop * list nat", "bool"), "Bool.eqb",
+                                        "header_crash_ok", hcases)
+        if errh:
+            ctx.break_("correspondence:coqc-evaluation(header)", "\n".join(errh))
+        for b in badh[:3]:
+            c, o = crash[hidx[b]]
+            ctx.break_("correspondence:header-count-automaton[dcd]",
+                       "after the kill the file does not load with the frames of all completed writes, as the automaton "
+                       "with a header refreshed after every frame says: %d written -> %s loaded" % (
+                           sum(len(op[1]) for op in c["ops"] if op[0] == "write"), len(o["load"]["frames"])))
     if ccases:
         prel = ("Definition crash_ok (c : bool * list dop * list nat) : bool := let '(a, ops, got) := c in "
                 "existsb (list_eqb Nat.eqb got) (crash_images (drun a ops)).")
